@@ -319,60 +319,6 @@ func sameIndex(a, b ssa.Value) bool {
 }
 
 // I2: cursor discipline in the readers of the compressed formats.
-func (p *Program) ruleCursor(c *Check) {
-	n := 0
-	for _, fname := range []string{"qCompressSearch", "rnCompressSearch", "rCompressSearch"} {
-		fn := p.Func("geometry", fname)
-		fd, pkg := p.Decl(fn), p.DeclPkg(fn)
-		if fd == nil {
-			c.Undecided("E9.I2", "anchor:geometry."+fname, "", "reader not found")
-			continue
-		}
-		info := pkg.TypesInfo
-		var walk func(list []ast.Stmt)
-		walk = func(list []ast.Stmt) {
-			for i, st := range list {
-				// descend
-				switch s := st.(type) {
-				case *ast.IfStmt:
-					walk(s.Body.List)
-					if b, ok := s.Else.(*ast.BlockStmt); ok {
-						walk(b.List)
-					}
-					continue
-				case *ast.ForStmt:
-					walk(s.Body.List)
-					continue
-				case *ast.BlockStmt:
-					walk(s.List)
-					continue
-				}
-				width, cursor := p.readWidth(info, st)
-				if width == "" {
-					continue
-				}
-				n++
-				con := fmt.Sprintf("geometry.%s: read %s at %s", fname, width, cursor)
-				pos := p.Pos(st.Pos())
-				if i+1 >= len(list) {
-					c.Bad("E9.I2", con, pos, "a read from the index buffer is not followed by the cursor advance")
-					continue
-				}
-				adv := advanceOf(info, list[i+1], cursor)
-				if adv == width {
-					c.OK("E9.I2", con, pos, "followed by "+cursor+" += "+adv)
-				} else {
-					o := c.Bad("E9.I2", con, pos, "the cursor advance after this read does not match the width read: every later field of the node is read at the wrong offset")
-					o.Expected = cursor + " += " + width
-					o.Observed = adv
-				}
-			}
-		}
-		walk(fd.Body.List)
-	}
-	c.Floor("E9.I2", n, 8, "cursor reads in the compressed-index readers")
-}
-
 // readWidth: statement reads the buffer at data[cur] / data[cur:]; returns the
 // canonical width ("1","4","8","int(<w>)") and the cursor name.
 func (p *Program) readWidth(info *types.Info, st ast.Stmt) (string, string) {
@@ -560,167 +506,185 @@ func (p *Program) ruleBuildIndex(c *Check) {
 	}
 	segRect := p.Method("geometry", "Segment", "Rect")
 	n := 0
-	for _, b := range fn.Blocks {
-		for _, in := range b.Instrs {
-			cl, ok := in.(*ssa.Call)
-			if !ok || cl.Call.StaticCallee() == nil {
-				continue
-			}
-			callee := cl.Call.StaticCallee()
-			if callee.Name() != "Insert" && callee.Name() != "insert" {
-				continue
-			}
-			n++
-			con := "(*geometry.baseSeries).buildIndex: " + SSAName(callee)
-			// the item argument: last int-typed argument for Insert(min,max,value) it is boxed
-			var item ssa.Value
-			var boxSrc []ssa.Value
-			for _, a := range cl.Call.Args {
-				switch x := a.(type) {
-				case *ssa.MakeInterface:
-					item = x.X
-				}
-				if bt, ok := a.Type().Underlying().(*types.Basic); ok && bt.Info()&types.IsInteger != 0 {
-					if _, isK := a.(*ssa.Const); !isK {
-						item = a
+	// the build loops may live in helpers of buildIndex (one per index kind)
+	root := fn
+	fns := []*ssa.Function{root}
+	seenFn := map[*ssa.Function]bool{root: true}
+	for i := 0; i < len(fns) && i < 8; i++ {
+		for _, b := range fns[i].Blocks {
+			for _, in := range b.Instrs {
+				if cl, ok := in.(*ssa.Call); ok {
+					if sc := cl.Call.StaticCallee(); sc != nil && !seenFn[sc] && p.IsRepoFn(sc) && sc.Signature.Recv() != nil && len(sc.Params) > 0 && types.Identical(sc.Params[0].Type(), root.Params[0].Type()) && len(sc.Blocks) > 0 {
+						seenFn[sc] = true
+						fns = append(fns, sc)
 					}
 				}
 			}
-			// find the SegmentAt call whose Rect() feeds the box arguments
-			var segAt *ssa.Call
-			var visit func(v ssa.Value, depth int)
-			seen := map[ssa.Value]bool{}
-			visit = func(v ssa.Value, depth int) {
-				if v == nil || seen[v] || depth > 12 {
-					return
+		}
+	}
+	for _, fn := range fns {
+		for _, b := range fn.Blocks {
+			for _, in := range b.Instrs {
+				cl, ok := in.(*ssa.Call)
+				if !ok || cl.Call.StaticCallee() == nil {
+					continue
 				}
-				seen[v] = true
-				if call, ok := v.(*ssa.Call); ok {
-					if sc := call.Call.StaticCallee(); sc != nil && sc.Name() == "SegmentAt" {
-						segAt = call
+				callee := cl.Call.StaticCallee()
+				if callee.Name() != "Insert" && callee.Name() != "insert" {
+					continue
+				}
+				n++
+				con := "(*geometry.baseSeries).buildIndex: " + SSAName(callee)
+				// the item argument: last int-typed argument for Insert(min,max,value) it is boxed
+				var item ssa.Value
+				var boxSrc []ssa.Value
+				for _, a := range cl.Call.Args {
+					switch x := a.(type) {
+					case *ssa.MakeInterface:
+						item = x.X
+					}
+					if bt, ok := a.Type().Underlying().(*types.Basic); ok && bt.Info()&types.IsInteger != 0 {
+						if _, isK := a.(*ssa.Const); !isK {
+							item = a
+						}
+					}
+				}
+				// find the SegmentAt call whose Rect() feeds the box arguments
+				var segAt *ssa.Call
+				var visit func(v ssa.Value, depth int)
+				seen := map[ssa.Value]bool{}
+				visit = func(v ssa.Value, depth int) {
+					if v == nil || seen[v] || depth > 12 {
 						return
 					}
-				}
-				var ops []*ssa.Value
-				if in, ok := v.(ssa.Instruction); ok {
-					ops = in.Operands(ops)
-				}
-				for _, o := range ops {
-					if *o != nil {
-						visit(*o, depth+1)
-					}
-				}
-				// values stored into local composite buffers (slice literals)
-				if a, ok := v.(*ssa.Alloc); ok {
-					for _, r := range *a.Referrers() {
-						if ia, ok := r.(*ssa.IndexAddr); ok {
-							for _, r2 := range *ia.Referrers() {
-								if st, ok := r2.(*ssa.Store); ok {
-									visit(st.Val, depth+1)
-								}
-							}
-						}
-						if fa, ok := r.(*ssa.FieldAddr); ok {
-							for _, r2 := range *fa.Referrers() {
-								if st, ok := r2.(*ssa.Store); ok {
-									visit(st.Val, depth+1)
-								}
-							}
-						}
-						if st, ok := r.(*ssa.Store); ok && st.Addr == a {
-							visit(st.Val, depth+1)
+					seen[v] = true
+					if call, ok := v.(*ssa.Call); ok {
+						if sc := call.Call.StaticCallee(); sc != nil && sc.Name() == "SegmentAt" {
+							segAt = call
+							return
 						}
 					}
-				}
-			}
-			for _, a := range cl.Call.Args {
-				if a != item {
-					if mi, ok := a.(*ssa.MakeInterface); ok && mi.X == item {
-						continue
+					var ops []*ssa.Value
+					if in, ok := v.(ssa.Instruction); ok {
+						ops = in.Operands(ops)
 					}
-					boxSrc = append(boxSrc, a)
-					visit(a, 0)
-				}
-			}
-			_ = segRect
-			if segAt == nil || item == nil {
-				c.Bad("E9.I5", con, p.Pos(cl.Pos()), "the inserted box is not derived from SegmentAt(i) of the series being indexed")
-				continue
-			}
-			k := segAt.Call.Args[len(segAt.Call.Args)-1]
-			ph, isPhi := k.(*ssa.Phi)
-			okLoop := false
-			if isPhi {
-				for _, e := range ph.Edges {
-					if kc, ok := e.(*ssa.Const); ok && kc.Int64() == 0 {
-						okLoop = true
-					}
-				}
-			}
-			// every iteration inserts: the loop counts i = 0,1,2… up to NumSegments() and no path
-			// through the loop body returns to the loop head without passing the insertion
-			every := ""
-			if isPhi && okLoop {
-				head := ph.Block()
-				stepOK := false
-				for _, e := range ph.Edges {
-					if bo, ok := e.(*ssa.BinOp); ok && bo.Op == token.ADD && bo.X == ssa.Value(ph) {
-						if kc, ok := bo.Y.(*ssa.Const); ok && kc.Int64() == 1 {
-							stepOK = true
+					for _, o := range ops {
+						if *o != nil {
+							visit(*o, depth+1)
 						}
 					}
-				}
-				if !stepOK {
-					every = "the loop does not advance by one segment per iteration"
-				}
-				boundOK := false
-				if len(head.Instrs) > 0 {
-					if iff, ok := head.Instrs[len(head.Instrs)-1].(*ssa.If); ok {
-						if bo, ok := iff.Cond.(*ssa.BinOp); ok && bo.Op == token.LSS && bo.X == ssa.Value(ph) {
-							if bc, ok := bo.Y.(*ssa.Call); ok {
-								if sc := bc.Call.StaticCallee(); sc != nil && sc.Name() == "NumSegments" && len(bc.Call.Args) > 0 && bc.Call.Args[0] == fn.Params[0] {
-									boundOK = true
-								}
-							}
-						}
-						if boundOK && len(head.Succs) == 2 {
-							// body entry = Succs[0]; can it get back to head avoiding the insertion block?
-							seen := map[*ssa.BasicBlock]bool{}
-							var walk func(b *ssa.BasicBlock) bool
-							walk = func(b *ssa.BasicBlock) bool {
-								if b == head {
-									return true
-								}
-								if b == cl.Block() || seen[b] {
-									return false
-								}
-								seen[b] = true
-								for _, s := range b.Succs {
-									if walk(s) {
-										return true
+					// values stored into local composite buffers (slice literals)
+					if a, ok := v.(*ssa.Alloc); ok {
+						for _, r := range *a.Referrers() {
+							if ia, ok := r.(*ssa.IndexAddr); ok {
+								for _, r2 := range *ia.Referrers() {
+									if st, ok := r2.(*ssa.Store); ok {
+										visit(st.Val, depth+1)
 									}
 								}
-								return false
 							}
-							if walk(head.Succs[0]) {
-								every = "some iteration of the loop skips the insertion: not every segment of the series is in the index"
+							if fa, ok := r.(*ssa.FieldAddr); ok {
+								for _, r2 := range *fa.Referrers() {
+									if st, ok := r2.(*ssa.Store); ok {
+										visit(st.Val, depth+1)
+									}
+								}
+							}
+							if st, ok := r.(*ssa.Store); ok && st.Addr == a {
+								visit(st.Val, depth+1)
 							}
 						}
 					}
 				}
-				if !boundOK && every == "" {
-					every = "the loop is not bounded by i < NumSegments() of the series being indexed"
+				for _, a := range cl.Call.Args {
+					if a != item {
+						if mi, ok := a.(*ssa.MakeInterface); ok && mi.X == item {
+							continue
+						}
+						boxSrc = append(boxSrc, a)
+						visit(a, 0)
+					}
 				}
-			}
-			if every != "" {
-				c.Bad("E9.I5", con+" every segment", p.Pos(cl.Pos()), every)
-			} else if isPhi && okLoop {
-				c.OK("E9.I5", con+" every segment", p.Pos(cl.Pos()), "i runs over 0 … NumSegments()-1 and every iteration inserts")
-			}
-			if sameIndex(k, item) && okLoop {
-				c.OK("E9.I5", con, p.Pos(cl.Pos()), "inserts (box of SegmentAt(i), i) for i counting up from 0")
-			} else {
-				c.Bad("E9.I5", con, p.Pos(cl.Pos()), "the value stored in the index is not the position i of the segment whose box is inserted, or the loop does not start at 0")
+				_ = segRect
+				if segAt == nil || item == nil {
+					c.Bad("E9.I5", con, p.Pos(cl.Pos()), "the inserted box is not derived from SegmentAt(i) of the series being indexed")
+					continue
+				}
+				k := segAt.Call.Args[len(segAt.Call.Args)-1]
+				ph, isPhi := k.(*ssa.Phi)
+				okLoop := false
+				if isPhi {
+					for _, e := range ph.Edges {
+						if kc, ok := e.(*ssa.Const); ok && kc.Int64() == 0 {
+							okLoop = true
+						}
+					}
+				}
+				// every iteration inserts: the loop counts i = 0,1,2… up to NumSegments() and no path
+				// through the loop body returns to the loop head without passing the insertion
+				every := ""
+				if isPhi && okLoop {
+					head := ph.Block()
+					stepOK := false
+					for _, e := range ph.Edges {
+						if bo, ok := e.(*ssa.BinOp); ok && bo.Op == token.ADD && bo.X == ssa.Value(ph) {
+							if kc, ok := bo.Y.(*ssa.Const); ok && kc.Int64() == 1 {
+								stepOK = true
+							}
+						}
+					}
+					if !stepOK {
+						every = "the loop does not advance by one segment per iteration"
+					}
+					boundOK := false
+					if len(head.Instrs) > 0 {
+						if iff, ok := head.Instrs[len(head.Instrs)-1].(*ssa.If); ok {
+							if bo, ok := iff.Cond.(*ssa.BinOp); ok && bo.Op == token.LSS && bo.X == ssa.Value(ph) {
+								if bc, ok := bo.Y.(*ssa.Call); ok {
+									if sc := bc.Call.StaticCallee(); sc != nil && sc.Name() == "NumSegments" && len(bc.Call.Args) > 0 && bc.Call.Args[0] == fn.Params[0] {
+										boundOK = true
+									}
+								}
+							}
+							if boundOK && len(head.Succs) == 2 {
+								// body entry = Succs[0]; can it get back to head avoiding the insertion block?
+								seen := map[*ssa.BasicBlock]bool{}
+								var walk func(b *ssa.BasicBlock) bool
+								walk = func(b *ssa.BasicBlock) bool {
+									if b == head {
+										return true
+									}
+									if b == cl.Block() || seen[b] {
+										return false
+									}
+									seen[b] = true
+									for _, s := range b.Succs {
+										if walk(s) {
+											return true
+										}
+									}
+									return false
+								}
+								if walk(head.Succs[0]) {
+									every = "some iteration of the loop skips the insertion: not every segment of the series is in the index"
+								}
+							}
+						}
+					}
+					if !boundOK && every == "" {
+						every = "the loop is not bounded by i < NumSegments() of the series being indexed"
+					}
+				}
+				if every != "" {
+					c.Bad("E9.I5", con+" every segment", p.Pos(cl.Pos()), every)
+				} else if isPhi && okLoop {
+					c.OK("E9.I5", con+" every segment", p.Pos(cl.Pos()), "i runs over 0 … NumSegments()-1 and every iteration inserts")
+				}
+				if sameIndex(k, item) && okLoop {
+					c.OK("E9.I5", con, p.Pos(cl.Pos()), "inserts (box of SegmentAt(i), i) for i counting up from 0")
+				} else {
+					c.Bad("E9.I5", con, p.Pos(cl.Pos()), "the value stored in the index is not the position i of the segment whose box is inserted, or the loop does not start at 0")
+				}
 			}
 		}
 	}
